@@ -75,7 +75,7 @@ func VerifTTLSequence() {
 	zzverif.Assume(maxTTL <= 1_000_000)
 	c := NewCache[int](CacheOptions{MaxTTL: maxTTL, clock: clk, CleanupInterval: time.Hour})
 	model := map[string]*vEntry{}
-	keys := []string{"a", "b"}
+	keys := []string{"a", ""} // any string is a key, the empty one included
 	for i := 0; i < vSteps(); i++ {
 		k := keys[zzverif.Choose("key", 2)]
 		switch zzverif.Choose("op", 6) {
@@ -128,6 +128,16 @@ func VerifTTLSequence() {
 				_, there := model[kk]
 				zzverif.Assert(there, "no_resurrected_entry")
 			}
+		}
+	}
+	// final probe of every key (also what the native replay can observe of the stored set)
+	for _, kk := range keys {
+		got, ok := c.Get(kk)
+		e, present := model[kk]
+		want := present && clk.Now().Sub(e.setAt) < time.Duration(e.ttlSec)*time.Second
+		zzverif.Assert(ok == want, "get_hit_iff_live")
+		if ok && present {
+			zzverif.Assert(got == e.val, "get_returns_latest_value")
 		}
 	}
 	c.Stop()
